@@ -1,2 +1,134 @@
-/-! Line driver for C19 (stub; replaced when the model is written). -/
-def main : IO Unit := pure ()
+import MpVerif.C19.Model
+/-! Line driver for C19.  Protocol (one op per line, names hex-encoded, `-` = absent/empty):
+
+* `reset`                                 -> `ok`
+* `src <cell> <hex>`                      -> `ok`      initial (source / SOS) name of a cell
+* `copy <s0> <d0> <len>`                  -> `ok`      CopyLink entry
+* `m2m <s0> <slen> <d0> <dlen>`           -> `ok`      Many2Many/One2Many entry
+* `slack <s> <con> <slk>`                 -> `ok`      Range2Slk entry
+* `run`                                   -> `run wellfed=<b> topo=<b> sib=<b> closed=<b> noclash=<b> edges=<n>`
+* `con <cell>` / `var <cell>`             -> `<hex>`   delivered name of a constraint / variable-or-objective cell
+* `dvars <cell>..` / `dcons <cell>..`     -> `belowfree=<b> uncounted=<b>`   hypotheses on a set of delivered cells
+* `sf <hex> <hex> ...`                    -> `<b>`     suffixFreeB
+* `np <mode> <colhex|-|0> <rowhex|-|0> <nv> <ndv> <ncon> <nalg> <nobj> <objno> <multi>`
+      -> `none` | `error` | `names V <hex>.. C <hex>.. O <hex>..`   (`-` absent file, `0` empty file)
+* `file <hex>`                            -> `error` | `nread=<n> <hex>..`   names via NameProvider::name(0..nread-1)
+No logic here: every answer is a call of a model function. -/
+open MpVerif.C19
+
+def hexDigit (n : Nat) : Char := if n < 10 then Char.ofNat (48 + n) else Char.ofNat (87 + n)
+
+def toHex (nm : Name) : String :=
+  if nm.isEmpty then "-" else
+  String.ofList (nm.flatMap fun c => [hexDigit (c.toNat / 16 % 16), hexDigit (c.toNat % 16)])
+
+def hexVal (c : Char) : Option Nat :=
+  if '0' ≤ c ∧ c ≤ '9' then some (c.toNat - 48)
+  else if 'a' ≤ c ∧ c ≤ 'f' then some (c.toNat - 87) else none
+
+def fromHexL : List Char → Option Name
+  | [] => some []
+  | a :: b :: r => do
+    let x ← hexVal a; let y ← hexVal b; let t ← fromHexL r
+    pure (Char.ofNat (x * 16 + y) :: t)
+  | _ => none
+
+def fromHex (s : String) : Option Name :=
+  if s == "-" then some [] else fromHexL s.toList
+
+def fileArg (s : String) : Option (Option (List Char)) :=
+  if s == "-" then some none else if s == "0" then some (some []) else (fromHex s).map some
+
+structure DSt where
+  init : St := {}
+  roots : List Nat := []
+  ops : List Op := []      -- reversed
+  fin : St := {}
+  E : List Edge := []
+  R : List (Nat × Nat) := []
+
+def b2s (b : Bool) : String := if b then "1" else "0"
+
+def outNames (l : List FileName) : String :=
+  " ".intercalate (l.map fun f => toHex f.text)
+
+def handle (d : DSt) (ws : List String) : DSt × String :=
+  match ws with
+  | ["reset"] => ({}, "ok")
+  | ["src", c, h] =>
+    match c.toNat?, fromHex h with
+    | some c, some nm => ({ d with init := d.init.set c { s := nm, n := 0 }, roots := if nm.isEmpty then d.roots else c :: d.roots }, "ok")
+    | _, _ => (d, "bad-op")
+  | ["copy", a, b, n] =>
+    match a.toNat?, b.toNat?, n.toNat? with
+    | some a, some b, some n => ({ d with ops := (expandCopy a b n).reverse ++ d.ops }, "ok")
+    | _, _, _ => (d, "bad-op")
+  | ["m2m", a, sl, b, dl] =>
+    match a.toNat?, sl.toNat?, b.toNat?, dl.toNat? with
+    | some a, some sl, some b, some dl => ({ d with ops := (expandDistr a sl b dl).reverse ++ d.ops }, "ok")
+    | _, _, _, _ => (d, "bad-op")
+  | ["slack", a, b, c] =>
+    match a.toNat?, b.toNat?, c.toNat? with
+    | some a, some b, some c => ({ d with ops := (expandSlack a b c).reverse ++ d.ops }, "ok")
+    | _, _, _ => (d, "bad-op")
+  | ["run"] =>
+    let ops := d.ops.reverse
+    let fin := run d.init ops
+    let E := edges d.init ops
+    let R := plainClosure E.length E (plainPairs E)
+    ({ d with fin := fin, E := E, R := R },
+     s!"run wellfed={b2s (wellFed d.init ops)} topo={b2s (topoB d.roots ops)} sib={b2s (sibDistinctB E)} closed={b2s (closedB E R)} noclash={b2s (noClashB E R)} edges={E.length}")
+  | ["con", c] =>
+    match c.toNat? with
+    | some c => (d, toHex (deliveredConName d.fin c))
+    | none => (d, "bad-op")
+  | ["var", c] =>
+    match c.toNat? with
+    | some c => (d, toHex (deliveredVarName d.fin c))
+    | none => (d, "bad-op")
+  | "dvars" :: cs =>
+    match cs.mapM String.toNat? with
+    | some D => (d, s!"belowfree={b2s (belowFreeB d.R D)} uncounted={b2s (uncountedB d.fin D)}")
+    | none => (d, "bad-op")
+  | "dcons" :: cs =>
+    match cs.mapM String.toNat? with
+    | some D => (d, s!"belowfree={b2s (belowFreeB d.R D)} uncounted=1")
+    | none => (d, "bad-op")
+  | "sf" :: hs =>
+    match hs.mapM fromHex with
+    | some names => (d, b2s (suffixFreeB names))
+    | none => (d, "bad-op")
+  | ["np", mode, col, row, nv, ndv, ncon, nalg, nobj, objno, multi] =>
+    match mode.toNat?, fileArg col, fileArg row, nv.toNat?, ndv.toNat?, ncon.toNat?, nalg.toNat?,
+          nobj.toNat?, objno.toNat?, multi.toNat? with
+    | some mode, some col, some row, some nv, some ndv, some ncon, some nalg, some nobj, some objno, some multi =>
+      match readNamesModel ⟨mode, col, row, nv, ndv, ncon, nalg, nobj, objno, multi != 0⟩ with
+      | .none => (d, "none")
+      | .error => (d, "error")
+      | .names o =>
+        (d, s!"names V {outNames o.vars} C {outNames o.cons} O {outNames o.objs}")
+    | _, _, _, _, _, _, _, _, _, _ => (d, "bad-op")
+  | ["file", h] =>
+    match fileArg h with
+    | some f =>
+      match fileOffsets f with
+      | .missingNewline => (d, "error")
+      | .ok offs =>
+        let data := f.getD []
+        let l := (List.range (numberRead offs)).filterMap fun k => fileName data offs k
+        (d, s!"nread={numberRead offs} {outNames l}")
+    | none => (d, "bad-op")
+  | _ => (d, "bad-op")
+
+partial def loop (h : IO.FS.Stream) (out : IO.FS.Stream) (d : DSt) : IO Unit := do
+  let line ← h.getLine
+  if line.isEmpty then return ()
+  let ws := (line.trimAscii.toString.splitOn " ").filter (· ≠ "")
+  let (d', s) := handle d ws
+  out.putStrLn s
+  out.flush
+  loop h out d'
+
+def main : IO Unit := do
+  let out ← IO.getStdout
+  loop (← IO.getStdin) out {}
